@@ -20,6 +20,9 @@ type vfStubPub struct {
 }
 
 type vfStubNsqd struct {
+	// consumer side (source nsqd): the subscribed connection and the FIN/REQ commands it sent
+	sub    net.Conn
+	Resp   chan string
 	mu     sync.Mutex
 	ln     net.Listener
 	addr   string
@@ -34,7 +37,7 @@ func vfNewStubNsqd() *vfStubNsqd {
 	if err != nil {
 		panic(err)
 	}
-	s := &vfStubNsqd{ln: ln, addr: ln.Addr().String(), notify: make(chan struct{}, 1024)}
+	s := &vfStubNsqd{ln: ln, addr: ln.Addr().String(), notify: make(chan struct{}, 1024), Resp: make(chan string, 1024)}
 	go s.accept(ln)
 	return s
 }
@@ -96,6 +99,27 @@ func (s *vfStubNsqd) Since(n int) []vfStubPub {
 	s.mu.Lock()
 	defer s.mu.Unlock()
 	return append([]vfStubPub{}, s.pubs[n:]...)
+}
+
+// Deliver sends one MESSAGE frame (timestamp, attempts, id, body) to the subscribed consumer.
+func (s *vfStubNsqd) Deliver(id string, attempts uint16, body []byte) {
+	s.mu.Lock()
+	c := s.sub
+	s.mu.Unlock()
+	buf := make([]byte, 8+8+2+16+len(body))
+	binary.BigEndian.PutUint32(buf[0:], uint32(4+8+2+16+len(body)))
+	binary.BigEndian.PutUint32(buf[4:], 2)
+	binary.BigEndian.PutUint64(buf[8:], 1)
+	binary.BigEndian.PutUint16(buf[16:], attempts)
+	copy(buf[18:34], id)
+	copy(buf[34:], body)
+	c.Write(buf)
+}
+
+func (s *vfStubNsqd) Subscribed() bool {
+	s.mu.Lock()
+	defer s.mu.Unlock()
+	return s.sub != nil
 }
 
 func vfStubFrame(w io.Writer, typ int32, data string) {
@@ -161,6 +185,14 @@ func (s *vfStubNsqd) serve(c net.Conn) {
 				return
 			case "stall":
 			}
+		case "SUB":
+			s.mu.Lock()
+			s.sub = c
+			s.mu.Unlock()
+			vfStubFrame(c, 0, "OK")
+		case "RDY", "TOUCH":
+		case "FIN", "REQ":
+			s.Resp <- strings.TrimSpace(line)
 		case "NOP":
 		case "CLS":
 			vfStubFrame(c, 0, "CLOSE_WAIT")
